@@ -129,7 +129,10 @@ def classify(key, case, result, what=""):
         if any(f["point"].endswith("consumer.empty") and f["action"] == "delay" for f in result.fired):
             return key + ":after-delay-between-empty-and-liveness-test"
     if case["kind"] == "fault":
-        return key + ":after-fault@" + case["point"] + ("-in-stateful-phase" if "STATEFUL" in what else "")
+        if "STATEFUL" in what and key.endswith("-status-better-than-worst-scenario"):
+            # whatever raised inside the step, Hypothesis cannot reproduce a one-shot error and reports Flaky
+            return key + ":one-shot-error-in-stateful-step"
+        return key + ":after-fault@" + case["point"]
     return key
 
 
